@@ -514,8 +514,12 @@ pub fn exec_op(cache: &Cache, ctx: &mut ThreadCtx, i: usize, op: &Op, shards: us
         }
         Op::MapGetCallingBack { key, inner } => {
             // the acknowledgement of the inner delete is dropped (nobody waits for it)
+            // (kept alive to the end of the run: a freed acknowledgement's address could be handed
+            // to a later one, and the worker's events are attributed by address)
             let v = cache.map_get(key, |v| {
-                let _ = cache.delete(*inner);
+                if let Ok(ack) = cache.delete(*inner) {
+                    RUN.with(|r| r.borrow_mut().keep.push(ack));
+                }
                 !v
             });
             Res::Read { vals: vec![v.map(|x| !x)], complete: true }
@@ -725,6 +729,7 @@ pub fn body() {
             if cache.get(&k).is_none() {
                 if let Ok(ack) = cache.put_with_weight(k, 0xFFFF_0000_0000_0000 | k as u64, 1) {
                     let st = St::from(shuttle::future::block_on(ack.handle()));
+                    RUN.with(|r| r.borrow_mut().keep.push(ack));
                     log(Item::FinalPut { key: k, st });
                 }
             }
